@@ -39,6 +39,8 @@ pub enum ChunkCfg {
     Small(usize),
     /// Exact(c) only, c in 1..=max
     ExactOnly(usize),
+    /// mostly hundreds to thousands of elements per pull (Exact and Min), Auto now and then
+    Large,
 }
 #[derive(Clone, Copy, Debug, PartialEq, Eq)]
 pub enum ParamPos {
@@ -82,6 +84,10 @@ pub struct GenCfg {
     pub max_faults: usize,
     /// always at least one fault
     pub force_fault: bool,
+    /// scheduled mode: hand-over granularities to choose from
+    pub yield_every: Vec<u16>,
+    /// inputs are long (>= 1000 elements)
+    pub long_inputs: bool,
 }
 
 impl GenCfg {
@@ -106,7 +112,21 @@ impl GenCfg {
             mode,
             max_faults: 0,
             force_fault: false,
+            yield_every: vec![1],
+            long_inputs: false,
         }
+    }
+    /// scheduled mode over long inputs with large chunks: coarse-grained hand-over
+    pub fn long_sched() -> GenCfg {
+        let mut c = GenCfg::base(ModeCfg::Sched);
+        c.max_len = 6000;
+        c.long_inputs = true;
+        c.threads = ThreadsCfg::ParMax(4);
+        c.chunk = ChunkCfg::Large;
+        c.yield_every = vec![16, 64, 256, 1024];
+        c.src = SrcClass::Deep;
+        c.max_chain = 2;
+        c
     }
 }
 
@@ -207,8 +227,9 @@ fn len_strategy(max_len: usize) -> BoxedStrategy<usize> {
     }
 }
 
-fn input_strategy(max_len: usize) -> BoxedStrategy<Vec<u32>> {
-    len_strategy(max_len)
+fn input_strategy(max_len: usize, long: bool) -> BoxedStrategy<Vec<u32>> {
+    let lens = if long { (1000usize..=max_len.max(1001)).boxed() } else { len_strategy(max_len) };
+    lens
         .prop_flat_map(|n| {
             prop_oneof![
                 6 => vec(0u32..16, n),
@@ -254,6 +275,13 @@ fn chunk_strategy(cfg: ChunkCfg) -> BoxedStrategy<Cs> {
             3 => (1usize..=m).prop_map(Cs::Exact),
             3 => (1usize..=m).prop_map(Cs::Min),
             1 => (1usize..=m).prop_map(Cs::Usize),
+        ]
+        .boxed(),
+        ChunkCfg::Large => prop_oneof![
+            1 => Just(Cs::Auto),
+            4 => (200usize..=4096).prop_map(Cs::Exact),
+            3 => (200usize..=4096).prop_map(Cs::Min),
+            1 => (1025usize..=3000).prop_map(Cs::Exact),
         ]
         .boxed(),
         ChunkCfg::ExactOnly(m) => prop_oneof![
@@ -354,7 +382,7 @@ fn term_strategy(classes: &[TermClass]) -> BoxedStrategy<Term> {
     proptest::strategy::Union::new(alts).boxed()
 }
 
-fn schedule_strategy() -> BoxedStrategy<Schedule> {
+fn schedule_strategy(yield_every: Vec<u16>) -> BoxedStrategy<Schedule> {
     (
         prop_oneof![
             3 => Just(Policy::Uniform),
@@ -386,11 +414,18 @@ fn schedule_strategy() -> BoxedStrategy<Schedule> {
             }),
         ],
     )
-        .prop_map(|(policy, tape, weights)| Schedule { policy, tape, weights })
+        .prop_flat_map(move |(policy, tape, weights)| {
+            proptest::sample::select(yield_every.clone()).prop_map(move |yield_every| Schedule {
+                policy,
+                tape: tape.clone(),
+                weights: weights.clone(),
+                yield_every,
+            })
+        })
         .boxed()
 }
 
-fn mode_strategy(cfg: ModeCfg) -> BoxedStrategy<Mode> {
+fn mode_strategy(cfg: ModeCfg, yield_every: Vec<u16>) -> BoxedStrategy<Mode> {
     match cfg {
         ModeCfg::Free => (
             any::<u32>(),
@@ -403,7 +438,7 @@ fn mode_strategy(cfg: ModeCfg) -> BoxedStrategy<Mode> {
                 src_spin,
             })
             .boxed(),
-        ModeCfg::Sched => schedule_strategy().prop_map(Mode::Sched).boxed(),
+        ModeCfg::Sched => schedule_strategy(yield_every).prop_map(Mode::Sched).boxed(),
     }
 }
 
@@ -545,11 +580,11 @@ pub fn case_strategy(cfg: &GenCfg) -> BoxedStrategy<Case> {
         });
     (
         source_strategy(cfg.src),
-        input_strategy(cfg.max_len),
+        input_strategy(cfg.max_len, cfg.long_inputs),
         chain,
         params,
         term_strategy(&cfg.terms),
-        mode_strategy(cfg.mode),
+        mode_strategy(cfg.mode, cfg.yield_every.clone()),
     )
         .prop_flat_map(move |(source, input, chain, params, term, mode)| {
             let n = chain.len();
